@@ -15,7 +15,7 @@ def field_range(code):
 
 
 def write_segy(path, traces, cols, dt_us, fmt=5, grid=None, ext_headers=0, text=None, bin_extra=None,
-               ext_text=None):
+               ext_text=None, sorting=2):
     """traces: (n, ns) float32 in file order.  cols: dict field code -> int array (n) or int.
     grid: (ilines, xlines) for a regular inline-sorted cube (n == len(il)*len(xl)), else None."""
     traces = np.ascontiguousarray(traces, dtype=np.float32)
@@ -31,7 +31,7 @@ def write_segy(path, traces, cols, dt_us, fmt=5, grid=None, ext_headers=0, text=
     if grid is not None:
         sp.ilines = np.asarray(grid[0])
         sp.xlines = np.asarray(grid[1])
-        sp.sorting = 2
+        sp.sorting = sorting      # 2: inline sorted (traces of one inline are consecutive), 1: crossline sorted
         sp.offsets = [0]
     else:
         sp.tracecount = n
@@ -77,3 +77,10 @@ def read_source(path, ignore_geometry=False):
     with open(path, "rb") as fh:
         out["file_header"] = fh.read(3600)
     return out
+
+
+def inline_cube(path):
+    """The cube as (inline, crossline, sample) whatever the trace sorting of the file (segyio.tools.cube
+    returns it in file order: crossline-major for a crossline-sorted file)."""
+    with segyio.open(path, mode="r", strict=True) as f:
+        return np.stack([np.array(f.iline[int(i)], dtype=np.float32, copy=True) for i in f.ilines])
